@@ -15,6 +15,7 @@ SRC_TIE = {
     "C02": "_activate (both engines), CallbackWrapper.call/__call__ and CallbacksExecutor.call/async_call",
     "C03": "processing_loop (both engines), Event.__call__ and StateMachine.send (put, then the loop)",
     "C07": "Event.__call__ (the reserved keywords are stripped before the trigger is built) and the two name lists — `_event_data_kwargs` and the keys `EventData.extended_kwargs` injects — proved equal (reserved_eq_injected); SignatureAdapter.bind_expected translated structurally (every if/elif/else, test and statement of its two loops) and proved to mean the binder model (runBind_bindExpected), dispatcher.callable_method's two adapters proved to be invokeWith (runC_invokeWith), so that C07_receive_scripts states the property about the scripts themselves",
+    "C09": "graph.visit_connected_states (the deque loop, proved to be the model's `go`: runLoop_go, reachBy_bfs), StateMachineMetaclass._check with the five _check_* methods and their two helpers (which list each computes, when it is a problem, raise vs strict-or-warn; proved to be the model's `check` for every class definition: runCheck_check), the order of the steps of the metaclass' __init__ (metaInit_order) and Transition.__init__ (internal-transition test, which keyword feeds which callback group with which expected value)",
     "C13": "StateMachine.send and Event.__call__: every calling style is the same put-then-process (runS_send, runE_send)",
     "C04": "_activate and processing_loop (both engines), CallbacksExecutor.call/async_call",
     "C05": "_activate, _trigger and processing_loop of both engines (`async = sync with awaits`), the wrapper and executor methods of callbacks.py in their sync and async forms",
@@ -144,7 +145,7 @@ def main():
     man = dict(
         version=1,
         setup_cmd="cd lean && lake build SMV SMV.Props.Examples " + " ".join(f"SMV.Props.{p}" for p in props) +
-                  " SMV.Src.Tie SMV.Src.TieExpr SMV.Src.TieBind driver drv_bind drv_expr drv_validate drv_protocol drv_diagram drv_decl drv_store",
+                  " SMV.Src.Tie SMV.Src.TieExpr SMV.Src.TieBind SMV.Src.TieCheck driver drv_bind drv_expr drv_validate drv_protocol drv_diagram drv_decl drv_store",
         hooks=dict(guard="PYSM_VERIF", enable="no source hooks are used: observation is through the public API, sys.settrace and objects supplied by the harness",
                    baseline_off_cmd=BASE.get("cmd", "cd /repo && /venv/bin/python -m pytest -q"), source_commits=[], add_only=True),
         engines=[dict(name="lean+harness", path="lean/ + harness/", serves_properties=[c["property_id"] for c in checks],
